@@ -34,7 +34,7 @@ META = {
                      'constructors, receivers typed by self.X = Cls(...) and '
                      'constructor-argument typing)'],
     'assumptions': ['unresolved calls (framework objects) are not checked'],
-    'decided': ['D1 call conformance on all resolved edges',
+    'decided': ['D1 call conformance on all resolved edges (arity, keywords, and name/role agreement of positional arguments)',
                 'D2 proxy binding roles', 'D3 both acquisition paths; introspection parse state is per '
                 'parse; an explicitly supplied interface instance is used as '
                 'given',
@@ -91,6 +91,27 @@ def conformance_rules(ctx, rule, only_modules=None, chain=CHAIN):
                         ', '.join(t.params()), msg),
                     nontrivial=(fi.qualname, t.qualname) in chain,
                     loc=cs.where())
+                # name/role agreement: a positional argument that is a plain
+                # variable named like one of the callee's parameters must be
+                # bound to THAT parameter (a parameter inserted before it,
+                # or two swapped arguments, binds it to another role)
+                pos = CG.positional_params(t, cs.how)
+                for i, a in enumerate(cs.node.args):
+                    if isinstance(a, ast.Starred):
+                        break
+                    if isinstance(a, ast.Name) and a.id in pos and \
+                            i < len(pos):
+                        ctx.ob(rule, fi.qualname, 'role:%s(%s)' % (
+                            t.qualname.split('.', 1)[1], a.id),
+                            pos[i] == a.id,
+                            'the call %s at %s passes the variable %r '
+                            'positionally into the parameter %r of %s(%s), '
+                            'which also has a parameter named %r: the value '
+                            'reaches the wrong role' % (
+                                ast.unparse(cs.node)[:60], cs.where(), a.id,
+                                pos[i], t.qualname, ', '.join(pos), a.id),
+                            nontrivial=(fi.qualname, t.qualname) in chain,
+                            loc=cs.where())
     for a, b in chain:
         ctx.ob(rule, a, 'chain-edge:%s' % b.split('.', 1)[1],
                (a, b) in seen_edges,
